@@ -45,7 +45,7 @@ theorem finish_plain (c : Cfg) (ar aq : Nat) (s : S) (b : Base c ar aq s) (hrun 
     unfold peTail
     by_cases hd : s.downReset = true
     · rw [if_pos hd]
-      exact tail_down c ar aq s b hcl (fun hf => no_up_dead c ar aq s b hf hpd)
+      exact tail_down c ar aq s b hcl hd (fun hf => no_up_dead c ar aq s b hf hpd)
     · rw [if_neg hd, if_neg (by simp [hdir]), if_neg (by simp [hsr])]
       rw [show (false || s.procDone) = false from by simp [hpd]]
       simp only [Bool.false_eq_true, if_false, finishOf]
@@ -64,7 +64,7 @@ theorem finish_direct (c : Cfg) (ar aq : Nat) (s : S) (b : Base c ar aq s) (hrun
   unfold peTail
   by_cases hd : s.downReset = true
   · rw [if_pos hd]
-    exact tail_down c ar aq s b hcl (fun _ => hlc)
+    exact tail_down c ar aq s b hcl hd (fun _ => hlc)
   · rw [if_neg hd, if_pos hdir]
     simp only []
     by_cases how : c.oneway = true
